@@ -4,3 +4,4 @@ import Pulsar.Runtime
 import Pulsar.Timepb
 import Pulsar.Properties.C15
 import Pulsar.Properties.C17
+import Pulsar.Entry
